@@ -33,7 +33,7 @@ for p in $(for f in $changed; do dirname "$f"; done | sort -u); do
   ok=FAIL
   for try in 1 2 3; do
     (cd "$wt" && unshare -n bash -c "ip link set lo up; go test -count=1 ./$p/" >/tmp/seedv-$$.log 2>&1)
-    rest=$(grep -E "^--- FAIL" /tmp/seedv-$$.log | awk '{print $3}' | sort -u | grep -v '^TestSyslogFilter$' | tr '\n' ' ')
+    rest=$(grep -E "^--- FAIL" /tmp/seedv-$$.log | awk '{print $3}' | sort -u | grep -v -E '^(TestSyslogFilter|TestCommandRun_mDNS)$' | tr '\n' ' ')
     if ! grep -qE "^(FAIL|panic)" /tmp/seedv-$$.log || { [ -z "$rest" ] && ! grep -q "^panic" /tmp/seedv-$$.log; }; then ok=PASS; break; fi
   done
   res+=("own-tests[$p]=$ok"); [ $ok = FAIL ] && grep -E "^--- FAIL" /tmp/seedv-$$.log | head -5
